@@ -20,6 +20,7 @@ import types
 
 _CONTAINERS = (list, dict, set, bytearray)
 _PRISTINE = None  # {(owner-name, attr): (owner, pristine copy)}
+_UNCOPYABLE = set()  # attributes that existed at capture but could not be copied
 _CACHES = None  # [(name, obj)] objects with cache_clear / cache_info
 
 
@@ -68,8 +69,8 @@ def capture():
     for k, (o, v) in cont.items():
         try:
             _PRISTINE[k] = (o, copy.deepcopy(v))
-        except Exception:  # noqa: BLE001 - cannot be copied: leave alone, fingerprinted only
-            pass
+        except Exception:  # noqa: BLE001 - cannot be copied: existed at capture, left alone, fingerprinted only
+            _UNCOPYABLE.add(k)
     _CACHES = caches
 
 
@@ -82,7 +83,7 @@ def reset():
             p = _PRISTINE[k][1]
             if v != p or type(v) is not type(p):
                 _set(o, k[1], copy.deepcopy(p))
-        else:
+        elif k not in _UNCOPYABLE:
             try:
                 delattr(o, k[1])
             except Exception:  # noqa: BLE001
